@@ -84,8 +84,8 @@ func (a *Authentication) DID() string {
 }
 
 func (a *Authentication) UnmarshalJSON(b []byte) error {
-	if b == nil {
-		return nil
+	if len(b) == 0 {
+		return errors.New("authentication is empty")
 	}
 	type Alias Authentication
 	switch b[0] {
